@@ -28,6 +28,7 @@ def gen_input(idx: int, run_seed: int) -> dict:
     hb = ssb.handbuilt()
     if idx < len(hb):
         name, doc = hb[idx]
+        _vary_coroutine_table(doc, seeds.stream(run_seed, "corotable"))
         return {"doc": doc, "origin": {"kind": "handbuilt", "name": name}}
     rng = seeds.stream(run_seed, "program")
     size = rng.choice(["small", "small", "medium", "medium", "large"])
@@ -45,11 +46,24 @@ def gen_input(idx: int, run_seed: int) -> dict:
     doc = {"routines": out["ok"]["routines"]}
     mrng = seeds.stream(run_seed, "mutate")
     doc2, log = ssb.mutate(doc, mrng)
+    if _vary_coroutine_table(doc2, seeds.stream(run_seed, "corotable")):
+        log = log + ["coroutine table " + doc2["coro_table"]["order"] + ("+extra" if doc2["coro_table"]["extra"] else "")]
     return {"doc": doc2, "origin": {"kind": "generated", "size": size, "mutations": log, "source_chars": len(src)}}
 
 
 def _strip_multiline_indent(src: str) -> str:
     return src
+
+
+def _vary_coroutine_table(doc: dict, rng) -> bool:
+    """The table of coroutine names is a mapping id -> name; callers pass it in any order and with entries for
+    coroutines that are not in this routine set (the game's complete table)."""
+    n = sum(1 for r in doc["routines"] if r["type"] == "COROUTINE")
+    if n == 0 or rng.random() < 0.3:
+        return False
+    extra = [[len(doc["routines"]) + 2 + i, f"CORO_UNUSED_{i}"] for i in range(rng.choice([0, 1, 3]))]
+    doc["coro_table"] = {"order": rng.choice(["reversed", "by_name", "reversed"]), "extra": extra}
+    return True
 
 
 def _convert(doc: dict) -> dict:
